@@ -27,10 +27,25 @@ def main(argv=None) -> int:
             print("hygiene gate failed:\n" + "\n".join(bad))
             return 2
         core.translate_all()
-        p = core.make([])
+        # build everything that builds (-k): a file that belongs to a property not (yet) registered in
+        # MANIFEST.json must not block the registered checks, each of which rebuilds and verifies its own
+        # dependency closure anyway; setup fails iff a registered property's theorem file did not build
+        p = core.make(["-k"])
         sys.stdout.write(p.stdout[-4000:])
         sys.stderr.write(p.stderr[-4000:])
-        return p.returncode
+        man = json.loads((core.VERIF / "MANIFEST.json").read_text())
+        missing = []
+        for c in man.get("checks", []):
+            vo = core.COQ / "Properties" / (c["property_id"] + ".vo")
+            src = vo.with_suffix(".v")
+            if not vo.exists() or vo.stat().st_mtime < src.stat().st_mtime:
+                missing.append(c["property_id"])
+        if missing:
+            print("setup: theorem files of registered properties did not build: " + ", ".join(missing))
+            return 1
+        if p.returncode != 0:
+            print("setup: note: some files outside the registered properties' closures did not build (see above)")
+        return 0
     if a.manifest:
         from . import manifest
         manifest.write()
